@@ -612,6 +612,10 @@ fn record_to_proto(record: Record) -> proto::Record {
     }
 }
 
+#[cfg(libp2p_verif)]
+#[path = "verif_c44.rs"]
+pub mod verif_c44;
+
 /// Creates an `io::Error` with `io::ErrorKind::InvalidData`.
 fn invalid_data<E>(e: E) -> io::Error
 where
